@@ -126,8 +126,14 @@ fn capacity_boundary(rep: &mut Report, dir: &std::path::Path, rng: &mut Rng) {
         mem.apply_ticket(Ticket { issuer: "verif".into(), seq_no: 2, expires_in_secs: 0, capacity_bytes: Some(cap) }).ok()?;
         let wal0 = mem.stats().ok()?.wal_bytes;
         let (mut ends, mut accepted) = (Vec::new(), Vec::new());
+        // one lineage of updates: some of the operations replace the newest version of the baseline document by a new payload
+        // (an update appends its payload like a put does: the region is append-only)
+        let mut lineage = 0u64;
         for i in 0..n {
-            let r = mem.put_bytes_with_options(&payload(i), opts(i as u64 + 1));
+            let as_update = seeds[i] % 4 == 3;
+            let predicted = mem.next_frame_id();
+            let r = if as_update { mem.update_frame(lineage, Some(payload(i)), opts(i as u64 + 1), None) } else { mem.put_bytes_with_options(&payload(i), opts(i as u64 + 1)) };
+            if as_update && r.is_ok() { lineage = predicted; }
             accepted.push(r.is_ok());
             mem.commit().ok()?;
             if mem.stats().ok()?.wal_bytes != wal0 { return None; }
@@ -145,6 +151,7 @@ fn capacity_boundary(rep: &mut Report, dir: &std::path::Path, rng: &mut Rng) {
     let detail = json!({"mode": "c24-boundary", "sizes": sizes, "seeds": seeds, "put": j, "stored_end_of_that_put": ends[j], "capacity": cap, "k": k});
     let Some((ends2, accepted, _)) = run("edge.mv2", cap) else { return };
     rep.count("boundary_cases");
+    if seeds[j] % 4 == 3 { rep.count("boundary_cases_on_an_update"); }
     rep.count(if k > 0 { "boundary_cases_put_must_not_fit" } else { "boundary_cases_put_fits" });
     for (i, end) in ends2.iter().enumerate() {
         rep.count("capacity_checks");
